@@ -155,3 +155,101 @@ Proof. vm_compute. reflexivity. Qed.
 Theorem C16_no_valuation_is_error : forall l ds, transcode_cmd l None ds = CErr k_valuation [].
 Proof. reflexivity. Qed.
 Print Assumptions C16_no_valuation_is_error.
+
+(* ================================================================== no adjustment lost or doubled *)
+(* (3'), the clause Spec/BeancountMtmSpec.v adds to the executable verdict: in the emitted ledger
+   the postings on every asset/liability account add up to the account's market value on the
+   journal's last day, Sum_c Q_T(a,c) * p_T(c) (Spec/ValuationSpec.v market_value: quantities and
+   normalised prices straight from the directives), within ValuationSpec.step_bound * 10^-8 (one
+   per booking of the account, one per (day of the journal, held commodity), + 1).
+   Proofs/TranscodeMtmCell.v (one cell: Sort permutes a day's transactions, Check changes nothing,
+   C03_mark_to_market for ComputePrices+Valuate, the builder's days carry the journal's quantities
+   and prices; a commodity never booked on the account is never revalued) and
+   Proofs/TranscodeMtmSum.v (sum over the held commodities, the step count, decimals).
+   Side conditions: the parser's guarantee on account names (postings_syntactic, as in C03/C02/C04:
+   C03_syntactic_sufficient) and dates_nonneg: no directive is dated before day 0 = 0001-01-01 --
+   mtm_check counts the steps inside the window [0, last_date] (dates of the year 0000 are negative
+   day numbers). *)
+From Coq Require Import QArith Qabs.
+From Knut Require Import Model.Price Spec.WellformedSpec Spec.LedgerSpec Spec.LedgerSyntax Spec.MarkToMarketSpec Spec.ValuationSpec
+     Spec.MarkToMarketReportSpec Spec.BeancountMtmSpec Spec.TranscodeMtmSpec
+     Proofs.DecValue Proofs.TranscodeMtmCell Proofs.TranscodeMtmSum.
+Open Scope Z_scope.
+
+(* on the days handed to beancount.Transcode: the exact decimal sum of the values posted to a *)
+Theorem C16_account_totals_mark_to_market : forall l v sds dl days a e,
+  parse_directives sds = MOk dl -> postings_syntactic dl -> dates_nonneg dl ->
+  transcode_days l v sds = COk days ->
+  account_ok a = true -> is_AL a = true ->
+  market_value dl v a (last_date dl) = Some e ->
+  within_bound (posted_total a (days_postings days)) e (step_bound dl a 0 (last_date dl)) = true.
+Proof. exact transcode_account_total. Qed.
+Print Assumptions C16_account_totals_mark_to_market.
+
+(* on the emitted ledger, in the reader's vocabulary: the clause of c16_verdict_mtm finds nothing *)
+Theorem C16_ledger_mark_to_market : forall l v sds dl days,
+  parse_directives sds = MOk dl -> postings_syntactic dl -> dates_nonneg dl ->
+  transcode_days l v sds = COk days ->
+  mtm_check dl v (erase_entries v (transcode_entries days [])) = [].
+Proof. exact transcode_mtm_check. Qed.
+Print Assumptions C16_ledger_mark_to_market.
+
+(* the account total the reader computes from the ledger is the total of the days' postings *)
+Theorem C16_ledger_total_is_days_total : forall v a days,
+  (dvalue (ledger_total (erase_entries v (transcode_entries days [])) (acc_name a))
+   == dvalue (posted_total a (days_postings days)))%Q.
+Proof. intros v a days. rewrite ledger_total_days, posted_total_value. reflexivity. Qed.
+Print Assumptions C16_ledger_total_is_days_total.
+
+(* behind them, per commodity, for any date T on or after the last directive (no calendar side
+   condition): a commodity other than V is carried at quantity * latest price up to 10^-8 per
+   booking of (a, c) and per day of the journal; V itself exactly at its quantity; a commodity the
+   account never books gets no posting at all (so no adjustment can come from nowhere) *)
+Theorem C16_position_mark_to_market : forall l v sds dl days a c T,
+  parse_directives sds = MOk dl -> postings_syntactic dl -> (forall d, In d dl -> directive_date d <= T) ->
+  transcode_days l v sds = COk days ->
+  account_ok a = true -> is_AL a = true -> c <> v ->
+  (Qabs (cell_value a c (days_postings days) - mv_cell dl v a c T)
+   <= inject_Z (cell_bookings dl a c + Z.of_nat (length (WellformedSpec.dates dl))) * (1 # 100000000))%Q.
+Proof.
+  intros l v sds dl days a c T Hl Hsyn HT. apply transcode_cell; assumption.
+Qed.
+Print Assumptions C16_position_mark_to_market.
+
+Theorem C16_valuation_commodity_at_quantity : forall l v sds dl days a T,
+  parse_directives sds = MOk dl -> postings_syntactic dl -> (forall d, In d dl -> directive_date d <= T) ->
+  transcode_days l v sds = COk days ->
+  (cell_value a v (days_postings days) == mv_cell dl v a v T)%Q.
+Proof.
+  intros l v sds dl days a T Hl Hsyn HT. apply transcode_cell_V; assumption.
+Qed.
+Print Assumptions C16_valuation_commodity_at_quantity.
+
+Theorem C16_unbooked_commodity_not_posted : forall l v sds dl days a c,
+  parse_directives sds = MOk dl -> postings_syntactic dl ->
+  transcode_days l v sds = COk days ->
+  account_ok a = true -> is_AL a = true ->
+  (forall d p, In (d, p) (flat_postings dl) -> cellb a c p = false) ->
+  Forall (fun p => cellb a c p = false) (days_postings days).
+Proof.
+  intros l v sds dl days a c Hl Hsyn H Ha HAL Hn. apply (transcode_cell_unbooked l v sds dl days a c Hl Hsyn H Ha HAL).
+  unfold cell_bookings. rewrite Proofs.MarkToMarketWindow.filter_all_false; [reflexivity|].
+  intros [d p] Hin. exact (Hn d p Hin).
+Qed.
+Print Assumptions C16_unbooked_commodity_not_posted.
+
+(* the hypotheses are satisfiable and the statement is not vacuous: on the witness above (one AAPL
+   bought at 100, priced 110 two days later) Assets:P must total 110 = 1 * 110 (purchase 100 +
+   adjustment 10), allowance 5e-8; the model's ledger totals exactly 110 *)
+Example C16_mtm_example :
+  match parse_directives c16_witness, transcode_days true chf c16_witness with
+  | MOk dl, COk days =>
+    let a := acc_of_name [65;115;115;101;116;115;58;80] in
+    postings_syntactic_b dl = true /\ dates_nonneg_b dl = true /\ account_ok a = true /\ is_AL a = true /\
+    market_value dl chf a (last_date dl) = Some (mkDec 110 0) /\
+    step_bound dl a 0 (last_date dl) = 5 /\
+    posted_total a (days_postings days) = mkDec 110 0 /\
+    ledger_total (erase_entries chf (transcode_entries days [])) (acc_name a) = mkDec 110 0
+  | _, _ => False
+  end.
+Proof. vm_compute. repeat split; reflexivity. Qed.
